@@ -276,7 +276,7 @@ def case_gate(ctx, idx, rng, nprng):
     else:
         exp = sla.expm(-step * H)
         scale = max(1.0, float(np.abs(exp).max())) * (1.0 + abs(step) * float(np.linalg.norm(H, 2)))
-    tol = 8000 * EPS * scale
+    tol = 20000 * EPS * scale
     judge(ctx, "gate:" + gk, "value:gate:" + gk, got, exp, tol, f"{gk} gate ({F.cls},{F.sym}) vs expm(-step*H_JW)",
           {"family": [F.cls, F.sym], "params": par})
     ctx.count("gate_checks")
@@ -717,9 +717,9 @@ def canaries(ctx):
     exp = sla.expm(-0.3 * H)
     bad = got.copy()
     bad[1, 2] *= -1
-    judge(sub, "canary", "value:gate:hopping", bad, exp, 8000 * EPS, "canary")
+    judge(sub, "canary", "value:gate:hopping", bad, exp, 20000 * EPS, "canary")
     ctx.canary("gate-sign", len(sub.violations) == 1)
-    ok = judge(sub, "canary", "value:gate:hopping", got, exp, 8000 * EPS, "canary")
+    ok = judge(sub, "canary", "value:gate:hopping", got, exp, 20000 * EPS, "canary")
     ctx.canary("gate-clean-passes", ok and len(sub.violations) == 1)
     # 2. the oracle must distinguish a gate applied with and without the string of an intermediate occupied site
     g = PG.lattice((3, 1), "obc")
